@@ -9,7 +9,7 @@
   * a schedule is a list of thread ids; `reach P sched` replays it (a blocked or finished thread cannot be scheduled);
   * sequential consistency is assumed; preemption happens only between events.
 -/
-namespace Kevo.Conc
+namespace Kevo.LConc
 
 abbrev Tid := Nat
 abbrev Lock := Nat
@@ -146,4 +146,4 @@ def Deadlock (P : Prog) (s : St) : Prop := ∃ p, WaitChain P s p p
 /-- unfinished: the thread still has an event to execute -/
 def Unfinished (P : Prog) (s : St) (t : Tid) : Prop := (next P s t).isSome
 
-end Kevo.Conc
+end Kevo.LConc
